@@ -13,6 +13,7 @@ From V Require Proofs.ExprsTie.   (* the kernels' word-level expressions, regene
 From V Require Import Checkers.Check Proofs.CheckSound.   (* the extracted checkers and their soundness proofs, pinned at the end of this file *)
 From V Require Import Base.Res Model.Kernels Model.Canon Model.TwoLevel Model.Api Spec.Bfun Spec.Calls
   Proofs.Order Proofs.Invariant.
+From V Require Import Proofs.Routes.   (* the construction routes of the generators, pinned at the end of this file *)
 Import ListNotations.
 Open Scope N_scope.
 
@@ -167,3 +168,32 @@ Proof. exact CheckSound.chk_cmp_sound. Qed.
 Print Assumptions C02_checker_eq_iff.
 Print Assumptions C02_checker_eq_sound.
 Print Assumptions C02_checker_cmp_sound.
+
+
+(* ---- construction routes: every route of the generators denotes the table it was asked for *)
+(* [route] (Proofs/Routes.v) mirrors the routes through which the generators build the operand "function of table t"
+   (plain constructor; complement of a route-built complement; hex text round trip; Shannon recomposition of the
+   value's own cofactors or of two route-built cofactor tables; flip / swap / swap_adjacent of a route-built
+   transformed table; r ^ (t ^ r), (t | r) & (t | !r), (t & r) | (t & !r) with route-built operands; the other type
+   and back; assignment by assignment from zero / one), operands being routes themselves, to any depth; [build] runs
+   a route with the model; [route_ok] says that the indices drawn are in range and the random table is well-formed.
+   Quantifier: every route of any depth, every n, every well-formed table, for Lut and LutN. *)
+Theorem C02_route_sound : forall r n t, wf n t -> route_ok r n -> build r n t = Ok (mkLut n t).
+Proof. exact route_sound. Qed.
+
+(* a chain of depth 2 below the top on 3-input majority (recomposition of the complement of a flipped operand and of
+   an AND of a text-parsed and a swapped operand), and a route that uses every constructor; the operands are other
+   tables than the one asked for *)
+Example C02_route_nonvacuous :
+  let r := RShannon false 1 (RNot (RFlip 2 (RPlain false))) (RBin BAnd [0x5a] (RHex false) (RSwap 0 2 (RPlain false))) in
+  let r_all :=
+    RShannon true 2
+      (RBin BXor [0xc5] (RNot (RSwapAdj 1 (RAssign true true)))
+                        (RBin BOr [0x3c] (RShannonOf false 0) (ROther true)))
+      (RFlip 1 (RSwap 0 2 (RBin BAnd [0x99] (RHex true) (RAssign false false)))) in
+  wf 3 [0xe8] /\ route_ok r 3 /\ build r 3 [0xe8] = Ok (mkLut 3 [0xe8]) /\
+  route_ok r_all 3 /\ build r_all 3 [0xe8] = Ok (mkLut 3 [0xe8]) /\
+  cof_table 3 [0xe8] 1 false = [0xa0] /\ not_table 3 [0xa0] = [0x5f] /\ flip_table 3 [0x5f] 2 = [0xf5].
+Proof. exact route_example. Qed.
+
+Print Assumptions C02_route_sound.
